@@ -401,6 +401,7 @@ func C12(c *Ctx) {
 	r.Rule("R12.8", "the journal keeps the keys it records: the block journal is stored as JSON and PrevStates is keyed by the raw state key (EVM storage slots are 32 arbitrary bytes); encoding/json replaces invalid UTF-8 in map keys, so the journal entry type owns its JSON form: it has MarshalJSON and UnmarshalJSON, MarshalJSON puts a key into a string-keyed map unencoded only behind utf8.ValidString(key) and hex-encodes the others, UnmarshalJSON hex-decodes them back. Otherwise a rollback (also the start-up rollback after a crash, C11) restores the previous value under a different key and the slot keeps the rolled-back block's value.")
 	c.c12JournalKeys("R12.8")
 	c.c12ReadUnderBatch()
+	c.c12HeadAndRefusal()
 	r.Rule("R12.4", "root chain continues: after reverting, every successful path stores prevJnlHash (re-read from the target height's journal) and maxJnlHeight; a value other than that journal's root is stored only behind height == 0 or is overwritten before every return; the rollback is refused exactly when minJnlHeight > height (any spelling of that comparison), so the target's journal record exists whenever it is read.")
 	r.Rule("R12.7", "the journal records the real previous balance (shared with C10 R10.4): "+balanceInPlaceText)
 	c.balanceInPlace("R12.7")
